@@ -30,8 +30,18 @@ type ReplayFile struct {
 	Engine      string   `json:"engine"`
 	TreeHash    string   `json:"repo_tree_hash"`
 	Seed        uint64   `json:"seed"`
+	BaseSeed    uint64   `json:"verif_seed"`
 	RunIndex    int      `json:"run_index"`
 	Tape        []uint32 `json:"tape"`
+	// PrefixRuns: run indices to execute (in search mode, same process) before the
+	// tape. Only used when the violation depends on state the code under test
+	// keeps process-wide, left behind by earlier runs of the same worker.
+	PrefixRuns  []int    `json:"prefix_runs,omitempty"`
+	WorkerFirst int      `json:"worker_first_run"`
+	WorkerStep  int      `json:"worker_stride"`
+	Original    []uint32 `json:"original_tape,omitempty"` // kept until the minimised tape has been confirmed in a fresh process
+	OriginalSig string   `json:"original_signature,omitempty"`
+	OriginalMsg string   `json:"original_message,omitempty"`
 	OriginalLen int      `json:"original_tape_len"`
 	ShrinkRuns  int      `json:"shrink_candidates_run"`
 	Signature   string   `json:"signature"`
@@ -372,6 +382,7 @@ func workerMain(eng Engine, o *Options) {
 
 		if v != nil {
 			res.Violation = minimise(eng, o, seed, i, t.Rec, v, known)
+			res.Violation.WorkerFirst, res.Violation.WorkerStep = o.Index, o.Workers
 			break
 		}
 	}
@@ -404,7 +415,7 @@ func minimise(eng Engine, o *Options, seed uint64, idx int, tape []uint32, v *Vi
 		_ = t
 
 		return &ReplayFile{
-			Property: o.Property, Tier: o.Tier, Engine: eng.Name(), TreeHash: o.TreeHash, Seed: seed, RunIndex: idx,
+			Property: o.Property, Tier: o.Tier, Engine: eng.Name(), TreeHash: o.TreeHash, Seed: seed, BaseSeed: o.Seed, RunIndex: idx,
 			Tape: best, OriginalLen: len(tape), ShrinkRuns: 0,
 			Signature: sig, Message: v.Message, EventHash: "not-comparable", Trace: []string{"(trace is printed by the replay)"},
 		}
@@ -512,13 +523,20 @@ func minimise(eng Engine, o *Options, seed uint64, idx int, tape []uint32, v *Vi
 		fv, ft = runTape(eng, o.Property, seed, best, known, true)
 
 		if fv == nil {
-			harness("run of seed %d is not reproducible in-process: violation %s vanished", seed, sig)
+			// Not reproducible in this process: the code under test keeps process-wide
+			// state. Hand the tape over as found; the parent replays it in a fresh process.
+			return &ReplayFile{
+				Property: o.Property, Tier: o.Tier, Engine: eng.Name(), TreeHash: o.TreeHash, Seed: seed, BaseSeed: o.Seed, RunIndex: idx,
+				Tape: tape, OriginalLen: len(tape), ShrinkRuns: tries,
+				Signature: sig, Message: v.Message, EventHash: "not-comparable",
+				Trace: []string{"(unshrunk tape: the violation depends on process-wide state of the code under test and could not be re-evaluated in the worker; the trace is printed by ./run.sh replay)"},
+			}
 		}
 	}
 
 	return &ReplayFile{
-		Property: o.Property, Tier: o.Tier, Engine: eng.Name(), TreeHash: o.TreeHash, Seed: seed, RunIndex: idx,
-		Tape: best, OriginalLen: len(tape), ShrinkRuns: tries,
+		Property: o.Property, Tier: o.Tier, Engine: eng.Name(), TreeHash: o.TreeHash, Seed: seed, BaseSeed: o.Seed, RunIndex: idx,
+		Tape: best, Original: tape, OriginalSig: sig, OriginalMsg: v.Message, OriginalLen: len(tape), ShrinkRuns: tries,
 		Signature: fv.Signature(), Message: fv.Message,
 		EventHash: fmt.Sprintf("%016x", ft.EventHash()), Trace: ft.Trace,
 	}
@@ -578,6 +596,19 @@ func replayMain(engines map[string]Engine, propEngine map[string]string, o *Opti
 	eng := engines[en]
 	Thorough = rf.Tier == "thorough"
 	known, _ := loadKnown(o.KnownPath, rf.Property)
+
+	if len(rf.PrefixRuns) > 0 {
+		// recreate the process-wide state the failing run started from
+		pst := NewStats(known)
+		for _, i := range rf.PrefixRuns {
+			RunOne(eng, rf.Property, NewTape(RunSeed(rf.BaseSeed, rf.Property, i)), pst)
+		}
+
+		if !o.Verify {
+			fmt.Printf("  (%d earlier runs of the same worker replayed first)\n", len(rf.PrefixRuns))
+		}
+	}
+
 	v, t := runTape(eng, rf.Property, rf.Seed, rf.Tape, known, true)
 
 	if !o.Verify {
@@ -813,10 +844,74 @@ func parentMain(eng Engine, o *Options) int {
 			}
 		}
 
+		if reproduced == 0 && attempts == 1 && len(chosen.Original) > 0 {
+			// Shrinking runs candidates in one process; if the code under test keeps
+			// process-wide state (a pool, a memo), a candidate can fail only because of
+			// what an earlier candidate left behind. Fall back to the tape as found.
+			fmt.Printf("the minimised tape does not fail in a fresh process (process-wide state in the code under test misled the shrinker); falling back to the tape as found\n")
+
+			chosen.Tape, chosen.Signature, chosen.Message = chosen.Original, chosen.OriginalSig, chosen.OriginalMsg
+			chosen.EventHash, chosen.Trace = "not-comparable", []string{"(unshrunk tape; the trace is printed by ./run.sh replay)"}
+			b, _ := json.MarshalIndent(chosen, "", " ")
+
+			if err := os.WriteFile(path, b, 0o644); err != nil {
+				harness("write replay: %v", err)
+			}
+
+			vc := exec.Command(os.Args[0], "-replay", path, "-verify", "-known", o.KnownPath)
+			vc.Env = append(os.Environ(), WorkerEnv(eng, tmp, 2000)...)
+
+			var verr error
+
+			vout, verr = vc.CombinedOutput()
+			if ee, ok := verr.(*exec.ExitError); ok && ee.ExitCode() == ExitViol {
+				reproduced++
+			}
+		}
+
+		if reproduced == 0 && attempts == 1 && chosen.WorkerStep > 0 {
+			// The run depends on what earlier runs of its worker left in process-wide
+			// state of the code under test: replay the last 1, 2, 4, ... of them first.
+			var all []int
+			for i := chosen.WorkerFirst; i < chosen.RunIndex; i += chosen.WorkerStep {
+				all = append(all, i)
+			}
+
+			for n := 1; reproduced == 0; n *= 2 {
+				if n > len(all) {
+					n = len(all)
+				}
+
+				chosen.PrefixRuns = all[len(all)-n:]
+				b, _ := json.MarshalIndent(chosen, "", " ")
+
+				if err := os.WriteFile(path, b, 0o644); err != nil {
+					harness("write replay: %v", err)
+				}
+
+				vc := exec.Command(os.Args[0], "-replay", path, "-verify", "-known", o.KnownPath)
+				vc.Env = append(os.Environ(), WorkerEnv(eng, tmp, 3000+n)...)
+
+				var verr error
+
+				vout, verr = vc.CombinedOutput()
+				if ee, ok := verr.(*exec.ExitError); ok && ee.ExitCode() == ExitViol {
+					reproduced++
+					fmt.Printf("the violation depends on process-wide state of the code under test: it reproduces in a fresh process when the %d preceding runs of its worker are replayed first (recorded in the replay file)\n", n)
+				}
+
+				if n == len(all) {
+					break
+				}
+			}
+		}
+
 		if reproduced == 0 && attempts == 1 {
 			fmt.Printf("%s", vout)
-			harness("minimised tape %s did not reproduce in a fresh process", path)
+			harness("the failing run of %s does not reproduce in a fresh process, not even after its worker's earlier runs", path)
 		}
+
+		chosen.Original = nil
 
 		if attempts > 1 {
 			fmt.Printf("replay of the recorded schedule in fresh processes: the report was reproduced in %d of %d (the schedule replays exactly; whether the race detector reports depends on happens-before edges that sync.Pool inside fmt / encoding/json adds at random)\n", reproduced, attempts)
